@@ -136,8 +136,8 @@ theorem bindAll_noloop (ov : Bool) : ∀ (d : List (Option Str × Str)) (st : St
 theorem Mgr.init_noloop (st : Store) (b : BindSet) : (Mgr.init st b).2.2 ≠ .err .Loop := by
   cases b with
   | none => simp [Mgr.init]
-  | core => exact bindAll_noloop true _ _ _
-  | rdflib => exact bindAll_noloop true _ _ _
+  | core => exact bindAll_noloop false _ _ _
+  | rdflib => exact bindAll_noloop false _ _ _
 
 /-! ### the serializer's `while p in self.namespaces: p = "p" + p` -/
 
